@@ -1,43 +1,46 @@
 (* Props/C10.v -- property C10: pattern text <-> pattern object model.
    Statements only; proofs are in Proofs/Pattern*.v.
 
-   Vocabulary (Model/PatternSyntax.v):
+   Vocabulary
+   Model/PatternSyntax.v:
      pattern        parse trees of the STIX 2.1 pattern grammar, one constructor per alternative
      wf c           every token carried by c has the lexical class the grammar asks for at its place
      yield c        the token sequence of c
-     visit g c      stix2/pattern_visitor.py (variant g: `pinned` = the code as found,
-                    `repaired` = NOT passed through by every propTest method, WITHIN <float> accepted)
-     print a        the tokens of str(a)   (every __str__ of stix2/patterns.py)
-     unvisit a      a parse tree for the object a, when its grouping can be written at all
-     meaning_cst / meaning_ast   what a tree / an object says: every comparison with operator and
+     visit g c      stix2/pattern_visitor.py;  print g a : the tokens of str(a) (every __str__ of
+                    stix2/patterns.py);  unvisit g a : a parse tree for the object a;
+                    g : cfg is the variant of the code -- `pinned` the tree as found, `repaired` with
+                    every proposed fix (NOT passed through, WITHIN <float>, positional floats, quoted
+                    keys, h'', root_types updated on append, 'k'[*])
+     meaning_cst c / meaning_ast g a   what a tree / an object says: every comparison with operator and
                     negation, typed constants, path steps, qualifiers, grouping
-   Side conditions (Proofs/): `sem` (PatternObs.v) -- the visitor can handle the tree: timestamps
-   Python can represent, non-empty hex, no EXISTS, paths without [i][j] / 'k'[*], quoted keys that
-   contain a hyphen or are identifiers, ANDs the library does not refuse; `printable`
-   (PatternRange.v) -- float literals in the positional range of repr; `aprint` (PatternUnvExpr.v)
-   -- names and constants of an object print to single tokens.  Every exclusion is a listed finding
-   (known_findings.d/C10.json) or a deliberate refusal of the library.                             *)
+   Spec/PatternSpec.v:
+     sv_fb c        the object the visitor builds, as plain structural recursion
+     sem c          the visitor's remaining side conditions: representable timestamps, no EXISTS, no
+                    [i][j], no AND over disjoint object types (listed findings / deliberate refusal)
+     aprint a       names and constants of an object print to single tokens
+     well_grouped a, obs_level a   a parenthetical node wherever precedence requires one (syntactic)
+     constructible a               the classes accept the object (ANDs have a common object type)
+     vexpr a        the shape of the objects the visitor produces                                   *)
 From Coq Require Import NArith ZArith List String Bool.
-From V Require Import Model.PatternSyntax Proofs.PatternEscape Proofs.PatternRefuted
-  Proofs.PatternLit Proofs.PatternPath Proofs.PatternCmp Proofs.PatternObs Proofs.PatternMeaning
-  Proofs.PatternUnvConst Proofs.PatternUnvPath Proofs.PatternUnvExpr Proofs.PatternRange Proofs.PatternFixpoint.
+From V Require Import Model.PatternSyntax Spec.PatternSpec.
+From V Require Proofs.PatternEscape Proofs.PatternRefuted Proofs.PatternObs Proofs.PatternMeaning Proofs.PatternFixpoint.
 Import ListNotations.
 
 (* string constants are escaped correctly: the literal the printer writes for
    a string lexes (StringLiteral rule) back to exactly that string *)
 Theorem string_escape_roundtrip : forall s : ustring, lex_string (print_string s) = Some s.
-Proof. exact string_escape_roundtrip_lemma. Qed.
+Proof. exact PatternEscape.string_escape_roundtrip_lemma. Qed.
 Print Assumptions string_escape_roundtrip.
 
 (* the visitor yields an object with the same meaning *)
 Theorem visit_preserves : forall c : pattern, wf c = true -> sem c = true ->
-  exists a, visit repaired c = Ok a /\ meaning_ast a = meaning_cst c.
-Proof. exact visit_preserves_lemma. Qed.
+  exists a, visit repaired c = Ok a /\ meaning_ast repaired a = meaning_cst c.
+Proof. exact PatternMeaning.visit_preserves_lemma. Qed.
 Print Assumptions visit_preserves.
 
 (* the visitor is the structural function sv_fb on those trees *)
 Theorem visit_is_structural : forall c : pattern, wf c = true -> sem c = true -> visit repaired c = Ok (sv_fb c).
-Proof. exact visit_sv. Qed.
+Proof. exact PatternObs.visit_sv. Qed.
 Print Assumptions visit_is_structural.
 
 (* printing is a fixed point of parse-then-print: the tokens printed for the
@@ -46,34 +49,36 @@ Print Assumptions visit_is_structural.
    unambiguous, parsing the printed text gives the same object and printing
    it again the same text) *)
 Theorem print_fixpoint : forall (c : pattern) (a : aexpr),
-  wf c = true -> sem c = true -> printable c = true -> visit repaired c = Ok a ->
-  exists c', unvisit a = Some c' /\ wf c' = true /\ yield c' = print a /\ visit repaired c' = Ok a.
-Proof. exact print_fixpoint_lemma. Qed.
+  wf c = true -> sem c = true -> visit repaired c = Ok a ->
+  exists c', unvisit repaired a = Some c' /\ wf c' = true /\ yield c' = print repaired a /\ visit repaired c' = Ok a.
+Proof. exact PatternFixpoint.print_fixpoint_lemma. Qed.
 Print Assumptions print_fixpoint.
 
-(* objects assembled from the public classes: when the object's grouping can
-   be written (unvisit defined: a parenthetical node wherever precedence
-   requires one), the tree is well formed, its yield is exactly the printed
-   tokens, and the visitor reads it back to an object with the same meaning *)
-Theorem programmatic_roundtrip : forall (a : aexpr) (c : pattern),
-  aprint a = true -> unvisit a = Some c -> sem c = true ->
-  wf c = true /\ yield c = print a /\
-  exists a', visit repaired c = Ok a' /\ meaning_ast a' = meaning_ast a.
-Proof. exact programmatic_roundtrip_lemma. Qed.
+(* objects assembled from the public classes, grouping expressed with the
+   parenthetical node: the printed tokens are the yield of a well-formed parse
+   tree, and the visitor reads that tree back to an object with the same meaning *)
+Theorem programmatic_roundtrip : forall a : aexpr,
+  aprint a = true -> well_grouped a = true -> obs_level a = true -> constructible a = true ->
+  exists c, unvisit repaired a = Some c /\ wf c = true /\ yield c = print repaired a /\
+  exists a', visit repaired c = Ok a' /\ meaning_ast repaired a' = meaning_ast repaired a.
+Proof. exact PatternFixpoint.programmatic_roundtrip_lemma. Qed.
 Print Assumptions programmatic_roundtrip.
 
-(* unvisit is defined on every printable object of the shape the visitor produces *)
-Theorem unvisit_total_on_visitor_shape : forall a, vexpr a = true -> aprint a = true -> exists u, unv a = Some u.
-Proof. exact unv_total. Qed.
-Print Assumptions unvisit_total_on_visitor_shape.
+(* unvisit is defined on every well grouped printable object *)
+Theorem unvisit_total : forall a : aexpr,
+  well_grouped a = true -> obs_level a = true -> aprint a = true -> exists c, unvisit repaired a = Some c.
+Proof. exact PatternFixpoint.unvisit_defined. Qed.
+Print Assumptions unvisit_total.
 
 (* ---- the hypotheses are satisfiable ---- *)
+Definition kt := PatternRefuted.kt.
 Definition ex_path : objpath :=
   ObjPath (kt KIdentHyphen "network-traffic") (kt KIdent "extensions")
           (Some (OPathStep (OPathStep (OStep (KeyStep (kt KString "'http-request-ext'"))) (KeyStep (kt KIdent "request_header")))
-                           (KeyStep (kt KString "'Accept-Encoding'")))).
-(* [network-traffic:extensions.'http-request-ext'.request_header.'Accept-Encoding' NOT LIKE 'it\'s %' AND
-    network-traffic:src_port IN (80, 443)] REPEATS 2 TIMES FOLLOWEDBY ([a:b[*].c >= 1.5] OR [a:d = t'2020-02-29T23:59:59.5Z']) *)
+                           (KeyStep (kt KString "'Accept Encoding'")))).
+(* [network-traffic:extensions.'http-request-ext'.request_header.'Accept Encoding' NOT LIKE 'it\'s %' AND
+    network-traffic:src_port IN (80, 443)] REPEATS 2 TIMES
+   FOLLOWEDBY ([a:b[*].c >= 0.00001] OR [a:d = t'2020-02-29T23:59:59.5Z']) *)
 Definition ex_obs (e : cmpor) : obs := OSimple e.
 Definition ex_single (p : proptest) : cmpor := COrBase (CAndBase p).
 Definition ex_o1 : obs :=
@@ -84,38 +89,41 @@ Definition ex_o1 : obs :=
 Definition ex_o2 : obs :=
   ex_obs (ex_single (PTOrder (ObjPath (kt KIdent "a") (kt KIdent "b")
                                       (Some (OPathStep (OStep (IndexStep (kt KASTERISK "*"))) (KeyStep (kt KIdent "c")))))
-                             false (kt KGE ">=") (kt KFloatPos "1.5"))).
+                             false (kt KGE ">=") (kt KFloatPos "0.00001"))).
 Definition ex_o3 : obs :=
   ex_obs (ex_single (PTEqual (ObjPath (kt KIdent "a") (kt KIdent "d") None) false (kt KEQ "=")
                              (kt KTimestamp "t'2020-02-29T23:59:59.5Z'"))).
 Definition ex_pattern : pattern :=
   OFb (OFbBase (OOrBase (OAndBase ex_o1)))
       (OOrBase (OAndBase (OCompound (OFbBase (OOr (OOrBase (OAndBase ex_o2)) (OAndBase ex_o3)))))).
-Example ex_admissible : wf ex_pattern = true /\ sem ex_pattern = true /\ printable ex_pattern = true.
+Example ex_admissible : wf ex_pattern = true /\ sem ex_pattern = true.
 Proof. vm_compute. repeat split. Qed.
-Example ex_programmatic : exists c,
+Example ex_programmatic :
   let a := ECompound OpAnd
              [EParen (ECompound OpOr [EObs (ECmp KlEq (APath (u "file") [ABasic (u "hashes"); ABasic (u "SHA-256")]) (CString (u "it's") true) true);
                                       EObs (ECmp KlIn (APath (u "a") [AList (u "b") (IdxInt 1)]) (CList [CInt 1; CBool true]) false)]);
-              EObs (ECmp KlLt (APath (u "a") [ARef (u "src_ref"); ABasic (u "c")]) (CFloat (FVal false [49%N] [53%N])) false);
+              EObs (EBool true [ECmp KlLt (APath (u "a") [ARef (u "src_ref"); ABasic (u "c d")]) (CFloat (FVal false [49%N] [53%N])) false;
+                                EParen (EBool false [ECmp KlEq (APath (u "a") [ABasic (u "x")]) (CInt 1) false;
+                                                     ECmp KlEq (APath (u "b") [ABasic (u "x")]) (CInt 2) false])]);
               EQualified (EObs (ECmp KlMatches (APath (u "x-y") [ABasic (u "z")]) (CString (u "^\d+'$") true) false))
                          (AQWithin (CInt 5))] in
-  aprint a = true /\ unvisit a = Some c /\ sem c = true.
-Proof. eexists. vm_compute. repeat split. Qed.
+  aprint a = true /\ well_grouped a = true /\ obs_level a = true /\ constructible a = true.
+Proof. vm_compute. repeat split. Qed.
 
-(* ---- the pinned visitor does not have the property (witnesses) ---- *)
+(* ---- the tree as found (`pinned`) does not have the property: witnesses ---- *)
+Import PatternRefuted.
 Theorem visit_preserves_refuted_not_neq :          (* [a:b NOT != 1] *)
-  wf w_not_neq = true /\ forall a, visit pinned w_not_neq = Ok a -> meaning_ast a <> meaning_cst w_not_neq.
+  wf w_not_neq = true /\ forall a, visit pinned w_not_neq = Ok a -> meaning_ast pinned a <> meaning_cst w_not_neq.
 Proof. exact not_neq_loses. Qed.
 Print Assumptions visit_preserves_refuted_not_neq.
 
 Theorem visit_preserves_refuted_not_in :           (* [a:b NOT IN (1, 2)] *)
-  wf w_not_in = true /\ forall a, visit pinned w_not_in = Ok a -> meaning_ast a <> meaning_cst w_not_in.
+  wf w_not_in = true /\ forall a, visit pinned w_not_in = Ok a -> meaning_ast pinned a <> meaning_cst w_not_in.
 Proof. exact not_in_loses. Qed.
 Print Assumptions visit_preserves_refuted_not_in.
 
 Theorem visit_preserves_refuted_not_like :         (* [a:b NOT LIKE 'x'], and MATCHES / ISSUBSET / ISSUPERSET *)
-  forall o, wf (w_not_str o) = true /\ forall a, visit pinned (w_not_str o) = Ok a -> meaning_ast a <> meaning_cst (w_not_str o).
+  forall o, wf (w_not_str o) = true /\ forall a, visit pinned (w_not_str o) = Ok a -> meaning_ast pinned a <> meaning_cst (w_not_str o).
 Proof. intros o; destruct o; [exact not_like_loses|exact not_matches_loses|exact not_issubset_loses|exact not_issuperset_loses]. Qed.
 Print Assumptions visit_preserves_refuted_not_like.
 
@@ -128,6 +136,31 @@ Theorem visit_preserves_refuted_within_float :     (* [a:b = 1] WITHIN 5.5 SECON
   wf w_within_float = true /\ visit pinned w_within_float = Raise ValueError.
 Proof. exact within_float_crashes. Qed.
 Print Assumptions visit_preserves_refuted_within_float.
+
+Theorem visit_preserves_refuted_hex_empty :        (* [a:b = h''] *)
+  wf w_hex_empty = true /\ visit pinned w_hex_empty = Raise ValueError.
+Proof. exact hex_empty_crashes. Qed.
+Print Assumptions visit_preserves_refuted_hex_empty.
+
+Theorem visit_preserves_refuted_key_star :         (* [a:b.'a-b'[*] = 1] *)
+  wf w_key_star = true /\ visit pinned w_key_star = Raise AttributeError.
+Proof. exact key_star_crashes. Qed.
+Print Assumptions visit_preserves_refuted_key_star.
+
+Theorem visit_preserves_refuted_root_types :       (* [(x:b = 1 OR y:b = 1 OR a:b = 1) AND a:b = 1] *)
+  wf w_rt_stale = true /\ visit pinned w_rt_stale = Raise ValueError.
+Proof. exact rt_stale_crashes. Qed.
+Print Assumptions visit_preserves_refuted_root_types.
+
+Theorem print_fixpoint_refuted_float :             (* [a:b = 0.00001] prints 1e-05 *)
+  wf w_float_small = true /\ exists a, visit pinned w_float_small = Ok a /\ forallb token_ok (print pinned a) = false.
+Proof. exact float_exponent_invalid. Qed.
+Print Assumptions print_fixpoint_refuted_float.
+
+Theorem print_fixpoint_refuted_quoted_key :        (* [a:b.'a b' = 1] prints a:b.a b *)
+  wf w_key_space = true /\ exists a, visit pinned w_key_space = Ok a /\ forallb token_ok (print pinned a) = false.
+Proof. exact quoted_key_invalid. Qed.
+Print Assumptions print_fixpoint_refuted_quoted_key.
 
 Theorem visit_refuted_exists :                     (* [EXISTS a:b], under every variant *)
   forall g, wf w_exists = true /\ visit g w_exists = Raise Junk.
